@@ -67,9 +67,10 @@ structure ApiGuards (ss : List Stmt) (order : List (String × List Val)) : Prop 
   resolves : ∀ n a, (popAssocs ss)[n]? = some a → ResolvesAt (popAssocs ss) n a
   /-- every row is of a declared class and carries one value per attribute -/
   declared : ∀ o ∈ order, (findCls (popClasses ss) o.1).isSome = true ∧ o.2.length = (attrsOf ss o.1).length
-  /-- referred rows first: once a row of the referring class exists, no row of the referred class is created -/
-  referredFirst : ∀ a ∈ popAssocs ss, ∀ pre o suf, order = pre ++ o :: suf → o.1 = a.srcKind →
-    ∀ r ∈ suf, r.1 ≠ a.tgtKind
+  /-- referred rows first: when a row of a referred class is created, no row created before it refers to it
+      (every referred ROW is created before the rows referring to it — a topological order of the rows) -/
+  referredFirst : ∀ a ∈ popAssocs ss, ∀ pre o suf, order = pre ++ o :: suf → o.1 = a.tgtKind →
+    ∀ s ∈ rawRows ss pre a.srcKind, matchesB a s (rawRow ss o) = false
   /-- no cardinality-violating duplicates -/
   cardSrc : ∀ a ∈ popAssocs ss, a.srcMany = false → ∀ t ∈ rawRows ss order a.tgtKind,
     (selectIdx 0 (rawRows ss order a.srcKind) (fun s => matchesB a s t)).length ≤ 1
@@ -98,6 +99,37 @@ theorem names_mkRow_none (attrs : List (String × Ty)) (vs : List Val) (h : vs.l
     | cons v vs =>
       simp only [List.length_cons, Nat.add_right_cancel_iff] at h
       simp [ih vs h]
+
+/-- a new referred row that no existing referring row matches changes no link -/
+theorem nestedJoin_snoc_tgt_nomatch (a : AssocStmt) (S T : List Row) (t : Row)
+    (h : ∀ s ∈ S, matchesB a s t = false) : nestedJoin a S (T ++ [t]) = nestedJoin a S T := by
+  apply Links.ext'
+  · intro j
+    simp only [nestedJoin]
+    by_cases hlt : j < T.length
+    · rw [List.getElem?_append_left hlt]
+    · by_cases hj : j = T.length
+      · subst hj
+        have h2 : T[T.length]? = none := by simp
+        have hsel := selectIdx_congr 0 S (fun s => matchesB a s t) (fun _ => false) h
+        rw [selectIdx_false] at hsel
+        unfold selectIdx at hsel
+        simp [h2, hsel]
+      · have h1 : (T ++ [t])[j]? = none := by
+          rw [List.getElem?_eq_none_iff]; simp; omega
+        have h2 : T[j]? = none := by
+          rw [List.getElem?_eq_none_iff]; omega
+        simp [h1, h2]
+  · intro i
+    simp only [nestedJoin]
+    cases hs : S[i]? with
+    | none => rfl
+    | some s =>
+      simp only
+      have hsel := selectIdx_append_singleton 0 T t (fun x => matchesB a s x)
+      unfold selectIdx at hsel
+      rw [hsel, h s (List.mem_of_getElem? hs)]
+      simp
 
 theorem nestedJoin_tgt_out (a : AssocStmt) (S T : List Row) : (nestedJoin a S T).tgt S.length = [] := by
   simp [nestedJoin]
@@ -184,26 +216,10 @@ variable (ss : List Stmt) (order pre suf : List (String × List Val)) (o : Strin
 variable (g : ApiGuards ss order) (horder : order = pre ++ o :: suf)
 include g horder
 
-/-- when a referring row is created, all rows of the referred class exist already -/
-theorem tgt_complete (a : AssocStmt) (ha : a ∈ popAssocs ss) (hk : a.srcKind = o.1) :
-    rawRows ss order a.tgtKind = rawRows ss pre a.tgtKind := by
+/-- the rows of the referred class that exist when a referring row is created are among the final ones -/
+theorem tgt_prefix (a : AssocStmt) :
+    rawRows ss order a.tgtKind = rawRows ss pre a.tgtKind ++ rawRows ss (o :: suf) a.tgtKind := by
   rw [horder, rawRows_append]
-  have : rawRows ss (o :: suf) a.tgtKind = [] := by
-    apply rawRows_nil_of_not_mem
-    intro r hr
-    rcases List.mem_cons.mp hr with rfl | hr
-    · rw [← hk]; exact (g.keys a ha).2.2.2
-    · exact g.referredFirst a ha pre o suf horder hk.symm r hr
-  rw [this, List.append_nil]
-
-/-- when a referred row is created, no row of the referring class exists yet -/
-theorem src_empty (a : AssocStmt) (ha : a ∈ popAssocs ss) (hk : a.tgtKind = o.1) :
-    rawRows ss pre a.srcKind = [] := by
-  apply rawRows_nil_of_not_mem
-  intro r hr hrk
-  obtain ⟨p1, p2, hp⟩ := List.append_of_mem hr
-  have hord : order = p1 ++ r :: (p2 ++ o :: suf) := by rw [horder, hp]; simp
-  exact g.referredFirst a ha p1 r (p2 ++ o :: suf) hord hrk o (by simp) hk.symm
 
 theorem src_final (a : AssocStmt) (hk : a.srcKind = o.1) :
     rawRows ss order a.srcKind = rawRows ss pre a.srcKind ++ rawRow ss o :: rawRows ss suf a.srcKind := by
@@ -268,8 +284,8 @@ theorem apiNew_step (ss : List Stmt) (order pre suf : List (String × List Val))
           -- the referred row `j` may have at most one referring row: none so far, since the new one matches
           obtain ⟨t, htj, hmt⟩ := (mem_selectIdx_zero _ _ j).mp hj
           have htm : t ∈ rawRows ss order a.tgtKind := by
-            rw [tgt_complete ss order pre suf o g horder a ha hk]
-            exact List.mem_of_getElem? htj
+            rw [tgt_prefix ss order pre suf o g horder a]
+            exact List.mem_append_left _ (List.mem_of_getElem? htj)
           have hcard := g.cardSrc a ha hsm t htm
           rw [src_final ss order pre suf o g horder a hk, selectIdx_append] at hcard
           have hone : (selectIdx (0 + (rawRows ss pre a.srcKind).length) (rawRow ss o :: rawRows ss suf a.srcKind)
@@ -291,8 +307,8 @@ theorem apiNew_step (ss : List Stmt) (order pre suf : List (String × List Val))
         have hsm : rawRow ss o ∈ rawRows ss order a.srcKind := by
           rw [src_final ss order pre suf o g horder a hk]; simp
         have := g.cardTgt a ha htm (rawRow ss o) hsm
-        rw [tgt_complete ss order pre suf o g horder a ha hk] at this
-        exact this
+        rw [tgt_prefix ss order pre suf o g horder a, selectIdx_append, List.length_append] at this
+        omega
   refine ⟨_, apiNew_eq m o.1 o.2 c hc (rawRows ss pre) hready, ?_⟩
   rw [hall, hs]
   refine ⟨?_, ?_, ?_⟩
@@ -325,7 +341,7 @@ theorem apiNew_step (ss : List Stmt) (order pre suf : List (String × List Val))
       rw [if_neg hk, if_neg hne', List.append_nil]
       by_cases ht : o.1 = a.tgtKind
       · rw [if_pos ht]
-        rw [src_empty ss order pre suf o g horder a ha ht.symm, nestedJoin_nil_src, nestedJoin_nil_src]
+        rw [nestedJoin_snoc_tgt_nomatch a _ _ _ (g.referredFirst a ha pre o suf horder ht)]
       · rw [if_neg ht, List.append_nil]
 
 end Pyx.Load
